@@ -3,6 +3,7 @@ package main
 import (
 	"errors"
 	"fmt"
+	"time"
 
 	cbor "github.com/fxamacker/cbor/v2"
 	"github.com/veraison/eat"
@@ -611,26 +612,36 @@ const xwName = "http://sim.example/psa/xw"
 
 type XWClaims struct {
 	psatoken.P2Claims
-	W00 *int64 `cbor:"-75300,keyasint,omitempty" json:"w-00,omitempty"`
-	W01 *int64 `cbor:"-75301,keyasint,omitempty" json:"w-01,omitempty"`
-	W02 *int64 `cbor:"-75302,keyasint,omitempty" json:"w-02,omitempty"`
-	W03 *int64 `cbor:"-75303,keyasint,omitempty" json:"w-03,omitempty"`
-	W04 *int64 `cbor:"-75304,keyasint,omitempty" json:"w-04,omitempty"`
-	W05 *int64 `cbor:"-75305,keyasint,omitempty" json:"w-05,omitempty"`
-	W06 *int64 `cbor:"-75306,keyasint,omitempty" json:"w-06,omitempty"`
-	W07 *int64 `cbor:"-75307,keyasint,omitempty" json:"w-07,omitempty"`
-	W08 *int64 `cbor:"-75308,keyasint,omitempty" json:"w-08,omitempty"`
-	W09 *int64 `cbor:"-75309,keyasint,omitempty" json:"w-09,omitempty"`
-	W10 *int64 `cbor:"-75310,keyasint,omitempty" json:"w-10,omitempty"`
-	W11 *int64 `cbor:"-75311,keyasint,omitempty" json:"w-11,omitempty"`
-	W12 *int64 `cbor:"-75312,keyasint,omitempty" json:"w-12,omitempty"`
-	W13 *int64 `cbor:"-75313,keyasint,omitempty" json:"w-13,omitempty"`
-	W14 *int64 `cbor:"-75314,keyasint,omitempty" json:"w-14,omitempty"`
-	W15 *int64 `cbor:"-75315,keyasint,omitempty" json:"w-15,omitempty"`
-	W16 *int64 `cbor:"-75316,keyasint,omitempty" json:"w-16,omitempty"`
-	W17 *int64 `cbor:"-75317,keyasint,omitempty" json:"w-17,omitempty"`
-	W18 *int64 `cbor:"-75318,keyasint,omitempty" json:"w-18,omitempty"`
-	W19 *int64 `cbor:"-75319,keyasint,omitempty" json:"w-19,omitempty"`
+	Stamp *time.Time `cbor:"-75399,keyasint,omitempty" json:"w-stamp,omitempty"`
+	W00   *int64     `cbor:"-75300,keyasint,omitempty" json:"w-00,omitempty"`
+	W01   *int64     `cbor:"-75301,keyasint,omitempty" json:"w-01,omitempty"`
+	W02   *int64     `cbor:"-75302,keyasint,omitempty" json:"w-02,omitempty"`
+	W03   *int64     `cbor:"-75303,keyasint,omitempty" json:"w-03,omitempty"`
+	W04   *int64     `cbor:"-75304,keyasint,omitempty" json:"w-04,omitempty"`
+	W05   *int64     `cbor:"-75305,keyasint,omitempty" json:"w-05,omitempty"`
+	W06   *int64     `cbor:"-75306,keyasint,omitempty" json:"w-06,omitempty"`
+	W07   *int64     `cbor:"-75307,keyasint,omitempty" json:"w-07,omitempty"`
+	W08   *int64     `cbor:"-75308,keyasint,omitempty" json:"w-08,omitempty"`
+	W09   *int64     `cbor:"-75309,keyasint,omitempty" json:"w-09,omitempty"`
+	W10   *int64     `cbor:"-75310,keyasint,omitempty" json:"w-10,omitempty"`
+	W11   *int64     `cbor:"-75311,keyasint,omitempty" json:"w-11,omitempty"`
+	W12   *int64     `cbor:"-75312,keyasint,omitempty" json:"w-12,omitempty"`
+	W13   *int64     `cbor:"-75313,keyasint,omitempty" json:"w-13,omitempty"`
+	W14   *int64     `cbor:"-75314,keyasint,omitempty" json:"w-14,omitempty"`
+	W15   *int64     `cbor:"-75315,keyasint,omitempty" json:"w-15,omitempty"`
+	W16   *int64     `cbor:"-75316,keyasint,omitempty" json:"w-16,omitempty"`
+	W17   *int64     `cbor:"-75317,keyasint,omitempty" json:"w-17,omitempty"`
+	W18   *int64     `cbor:"-75318,keyasint,omitempty" json:"w-18,omitempty"`
+	W19   *int64     `cbor:"-75319,keyasint,omitempty" json:"w-19,omitempty"`
+}
+
+// GetStamp renders the optional time claim (CBOR: tag 1, as the library's own
+// encoding mode writes time values).
+func (o *XWClaims) GetStamp() string {
+	if o.Stamp == nil {
+		return "-"
+	}
+	return o.Stamp.UTC().Format(time.RFC3339)
 }
 
 func (o *XWClaims) wide() []**int64 {
@@ -639,7 +650,7 @@ func (o *XWClaims) wide() []**int64 {
 
 // GetWide renders the extra claims that are present.
 func (o *XWClaims) GetWide() string {
-	s := ""
+	s := "stamp=" + o.GetStamp() + ","
 	for i, p := range o.wide() {
 		if *p != nil {
 			s += fmt.Sprintf("%d=%d,", i, **p)
@@ -724,3 +735,45 @@ func (p XPtrProfile) GetClaims() psatoken.IClaims {
 		CanonicalProfile: p.N,
 	}}
 }
+
+// ---- kinds whose own claim sits at a CBOR key that merely STARTS with the
+// digits of a profile key (2650, -750001)
+
+// XNearClaims is an ordinary extension over profile 2 with such a claim.
+type XNearClaims struct {
+	psatoken.P2Claims
+	Batch *string `cbor:"-750001,keyasint,omitempty" json:"vendor-batch,omitempty"`
+}
+
+func (o *XNearClaims) Validate() error { return psatoken.ValidateClaims(o) }
+func (o XNearClaims) MarshalCBOR() ([]byte, error) { //nolint:gocritic
+	return encoding.SerializeStructToCBOR(xem, &o)
+}
+func (o *XNearClaims) UnmarshalCBOR(data []byte) error {
+	return encoding.PopulateStructFromCBOR(xdm, data, o)
+}
+func (o XNearClaims) MarshalJSON() ([]byte, error) { //nolint:gocritic
+	return encoding.SerializeStructToJSON(&o)
+}
+func (o *XNearClaims) UnmarshalJSON(data []byte) error {
+	return encoding.PopulateStructFromJSON(data, o)
+}
+
+type XNearProfile struct{ N string }
+
+func (p XNearProfile) GetName() string { return p.N }
+func (p XNearProfile) GetClaims() psatoken.IClaims {
+	return &XNearClaims{P2Claims: psatoken.P2Claims{Profile: eatProfileOf(p.N),
+		SwComponents: &psatoken.SwComponents[*psatoken.SwComponent]{}, CanonicalProfile: p.N}}
+}
+
+// Near265Claims has no profile field at all, only a vendor claim at key 2650.
+type Near265Claims struct {
+	psatoken.IClaims
+	Vendor *string `cbor:"2650,keyasint" json:"vendor"`
+}
+
+type Near265Profile struct{ N string }
+
+func (p Near265Profile) GetName() string             { return p.N }
+func (p Near265Profile) GetClaims() psatoken.IClaims { return &Near265Claims{} }
